@@ -54,5 +54,8 @@ Definition known14 (c : rcase14) : N :=
 
 Definition verdict (id : N) (c : rcase14) : list (list N) :=
   if contract_prefix (map snd (r_events c)) && retry_consistent (map snd (r_events c)) then
-    [vrow id 1 (judge (c14_ok c) (list_eqb rf_eqb (model_report c) (r_report c)) (known14 c))]
+    (* K14d fails "in the recorded way" when the document is not well-formed (nothing can then be parsed back) *)
+    let recorded := list_eqb rf_eqb (model_report c) (r_report c)
+                    || ((known14 c =? 4) && negb (r_wellformed c)) in
+    [vrow id 1 (judge (c14_ok c) recorded (known14 c))]
   else [vrow id 1 (4, 0)].
